@@ -427,4 +427,116 @@ theorem host_tw_spec (text : List Char) (cols : Nat) : TwSpec (hostStp cols) tex
       · simp
   · rw [if_neg (by omega), if_pos (by omega)]
 
+/-! ### bounce -/
+
+def BounceDegSpec (stp : Anim → Grid → Anim × Grid) (text : List Char) (cols : Nat) : Prop :=
+  ∀ a g, a.style = .bounce → a.loop = false → a.text = text → ¬ (0 < text.length ∧ text.length < cols) →
+    (stp a g).1.active = false
+
+def BounceSpec (stp : Anim → Grid → Anim × Grid) (text : List Char) (M : Int) : Prop :=
+  ∀ a g, a.style = .bounce → a.loop = false → a.text = text →
+    (a.offset + a.direction ≥ M →
+      (stp a g).1.offset = M ∧ (stp a g).1.direction = -1 ∧ (stp a g).1.shown = true) ∧
+    (a.offset + a.direction < M → a.offset + a.direction ≤ 0 → a.shown = true → (stp a g).1.active = false) ∧
+    (a.offset + a.direction < M → 0 < a.offset + a.direction →
+      (stp a g).1.offset = a.offset + a.direction ∧ (stp a g).1.direction = a.direction ∧
+      (stp a g).1.shown = a.shown)
+
+theorem bounce_deg_done (stp : Anim → Grid → Anim × Grid) (text : List Char) (cols : Nat)
+    (hs : BounceDegSpec stp text cols) (hdeg : ¬ (0 < text.length ∧ text.length < cols)) (a : Anim) (g : Grid)
+    (hst : a.style = .bounce) (hl : a.loop = false) (ht : a.text = text) :
+    (stepsG stp 1 (a, g)).1.active = false := by
+  apply stepsG_done stp (fun a => a.style = .bounce ∧ a.loop = false ∧ a.text = text) (fun _ => 0)
+  · intro a g ⟨h1, h2, h3⟩ _
+    exact Or.inl (hs a g h1 h2 h3 hdeg)
+  · exact ⟨hst, hl, ht⟩
+  · show 0 < 1
+    omega
+
+theorem bounce_done (stp : Anim → Grid → Anim × Grid) (hk : Keeps stp) (text : List Char) (M : Nat) (hM : 0 < M)
+    (hs : BounceSpec stp text (M : Int)) (a : Anim) (g : Grid)
+    (hst : a.style = .bounce) (hl : a.loop = false) (ht : a.text = text)
+    (ho : a.offset = 0) (hd : a.direction = 1) (hsh : a.shown = false) :
+    (stepsG stp (2 * M) (a, g)).1.active = false := by
+  apply stepsG_done stp
+    (fun a => a.style = .bounce ∧ a.loop = false ∧ a.text = text ∧
+      ((a.direction = 1 ∧ a.shown = false ∧ 0 ≤ a.offset ∧ a.offset < (M : Int)) ∨
+       (a.direction = -1 ∧ a.shown = true ∧ 1 ≤ a.offset ∧ a.offset ≤ (M : Int))))
+    (fun a => if a.direction = 1 then (2 * (M : Int) - 1 - a.offset).toNat else (a.offset - 1).toNat)
+  · intro a g ⟨h1, h2, h3, h4⟩ _
+    obtain ⟨k1, k2, k3⟩ := hk a g
+    obtain ⟨s1, s2, s3⟩ := hs a g h1 h2 h3
+    have kk : (stp a g).1.style = .bounce ∧ (stp a g).1.loop = false ∧ (stp a g).1.text = text :=
+      ⟨by rw [k1, h1], by rw [k2, h2], by rw [k3, h3]⟩
+    rcases h4 with ⟨d, sh, o0, o1⟩ | ⟨d, sh, o0, o1⟩
+    · by_cases hge : a.offset + a.direction ≥ (M : Int)
+      · obtain ⟨e1, e2, e3⟩ := s1 hge
+        refine Or.inr ⟨⟨kk.1, kk.2.1, kk.2.2, Or.inr ⟨e2, e3, by omega, by omega⟩⟩, ?_⟩
+        show (if (stp a g).1.direction = 1 then (2 * (M : Int) - 1 - (stp a g).1.offset).toNat
+              else ((stp a g).1.offset - 1).toNat) <
+             (if a.direction = 1 then (2 * (M : Int) - 1 - a.offset).toNat else (a.offset - 1).toNat)
+        rw [e2, e1, d, if_neg (by decide), if_pos rfl]
+        omega
+      · obtain ⟨e1, e2, e3⟩ := s3 (by omega) (by omega)
+        refine Or.inr ⟨⟨kk.1, kk.2.1, kk.2.2, Or.inl ⟨by rw [e2, d], by rw [e3, sh], by omega, by omega⟩⟩, ?_⟩
+        show (if (stp a g).1.direction = 1 then (2 * (M : Int) - 1 - (stp a g).1.offset).toNat
+              else ((stp a g).1.offset - 1).toNat) <
+             (if a.direction = 1 then (2 * (M : Int) - 1 - a.offset).toNat else (a.offset - 1).toNat)
+        rw [e2, e1, d, if_pos rfl, if_pos rfl]
+        omega
+    · by_cases hle : a.offset + a.direction ≤ 0
+      · exact Or.inl (s2 (by omega) hle sh)
+      · obtain ⟨e1, e2, e3⟩ := s3 (by omega) (by omega)
+        refine Or.inr ⟨⟨kk.1, kk.2.1, kk.2.2, Or.inr ⟨by rw [e2, d], by rw [e3, sh], by omega, by omega⟩⟩, ?_⟩
+        show (if (stp a g).1.direction = 1 then (2 * (M : Int) - 1 - (stp a g).1.offset).toNat
+              else ((stp a g).1.offset - 1).toNat) <
+             (if a.direction = 1 then (2 * (M : Int) - 1 - a.offset).toNat else (a.offset - 1).toNat)
+        rw [e2, e1, d, if_neg (by decide), if_neg (by decide)]
+        omega
+  · exact ⟨hst, hl, ht, Or.inl ⟨hd, hsh, by omega, by omega⟩⟩
+  · show (if a.direction = 1 then (2 * (M : Int) - 1 - a.offset).toNat else (a.offset - 1).toNat) < 2 * M
+    rw [hd, if_pos rfl]
+    omega
+
+theorem fw_bounce_deg_spec (text : List Char) (cols : Nat) : BounceDegSpec (fwStp cols) text cols := by
+  intro a g hst hl ht hdeg
+  unfold fwStp Fw.step
+  simp only [hst, hl, ht, Int.ofNat_eq_natCast]
+  split
+  · rfl
+  · rw [if_pos (by omega)]
+
+theorem host_bounce_deg_spec (text : List Char) (cols : Nat) : BounceDegSpec (hostStp cols) text cols := by
+  intro a g hst hl ht hdeg
+  unfold hostStp Host.step
+  simp only [hst, hl, ht]
+  split
+  · rfl
+  · rw [if_pos (by omega)]
+
+theorem fw_bounce_spec (text : List Char) (cols : Nat) (h0 : 0 < text.length) (h1 : text.length < cols) :
+    BounceSpec (fwStp cols) text ((cols - text.length : Nat) : Int) := by
+  intro a g hst hl ht
+  have hM : ((cols - text.length : Nat) : Int) = (cols : Int) - (text.length : Int) := by omega
+  unfold fwStp Fw.step
+  simp only [hst, hl, ht, Int.ofNat_eq_natCast, hM]
+  rw [if_neg (by omega), if_neg (by omega)]
+  simp only []
+  refine ⟨fun h => ?_, fun h hle hsh => ?_, fun h hlt => ?_⟩
+  · rw [if_pos h]; exact ⟨rfl, rfl, rfl⟩
+  · rw [if_neg (by omega), if_pos hle, if_pos hsh]; simp
+  · rw [if_neg (by omega), if_neg (by omega)]; exact ⟨rfl, rfl, rfl⟩
+
+theorem host_bounce_spec (text : List Char) (cols : Nat) (h0 : 0 < text.length) (h1 : text.length < cols) :
+    BounceSpec (hostStp cols) text ((cols - text.length : Nat) : Int) := by
+  intro a g hst hl ht
+  unfold hostStp Host.step
+  simp only [hst, hl, ht, Int.ofNat_eq_natCast]
+  rw [if_neg (by omega), if_neg (by omega)]
+  simp only []
+  refine ⟨fun h => ?_, fun h hle hsh => ?_, fun h hlt => ?_⟩
+  · rw [if_pos h]; exact ⟨rfl, rfl, rfl⟩
+  · rw [if_neg (by omega), if_pos hle, if_pos hsh]; simp
+  · rw [if_neg (by omega), if_neg (by omega)]; exact ⟨rfl, rfl, rfl⟩
+
 end Reduino.Lemmas.C18
